@@ -8,7 +8,7 @@ corrected) or a change that does break some property after all (to be looked at 
 import json, os, re, subprocess, sys, glob
 env = dict(os.environ, GOFLAGS="-mod=mod", GOPROXY="off", GOSUMDB="off", GOTOOLCHAIN="local")
 def sh(cmd, **kw):
-    return subprocess.run(cmd, shell=True, capture_output=True, text=True, env=env, **kw)
+    return subprocess.run(cmd, shell=True, capture_output=True, text=True, errors="replace", env=env, **kw)
 prefix = sys.argv[1]  # a round prefix such as /tmp/seed7, or "stored" for the changes kept under /verif/benign
 props = sys.argv[2:] or [f"C{i:02d}" for i in range(1, 21)]
 anchors = {}
